@@ -416,6 +416,10 @@ func modelOperand(v *Inv, st fsState, name string) Expect {
 	if t := st[e.Target]; t != nil && !v.Force {
 		e.Target = ""
 		return fail("target exists")
+	} else if t != nil && t.mode&os.ModeDir != 0 {
+		// -f replaces an existing file; a directory under the target name cannot be replaced
+		e.Target = ""
+		return fail("target is a directory")
 	}
 	e.RemoveInput = !v.Keep
 	return e
